@@ -214,6 +214,11 @@ def install(lw):
                         rows, cols = [str(s) for s in self.inputs], [str(s) for s in self.outputs]
                     else:
                         data = np.array([[complex(v) for v in dict(self).values()]], dtype=complex)
+                        if not np.all(data.imag == 0) or not np.all(data.real == np.round(data.real)):
+                            # a sampling result holds counts; the table shows them as integers. What it does with
+                            # non-integer "counts" (the repository's own tests build such results) is not judged.
+                            circmon.STATS["dataframe_of_non_integer_counts_not_judged"] += 1
+                            return res
                         amp = False
                         rows, cols = [str(self.input)], [str(s) for s in self.outputs]
                     if amp and conv:
